@@ -127,6 +127,17 @@ pub fn record(args: &[String]) {
     // floats
     let mut fs: Vec<f64> = vec![0.0, -0.0, 1.0, -1.5, 0.1, 0.2, 0.1 + 0.2, 1e-7, 123456.789, 1e15, 1e28, 7.9e28, 7.93e28, 1e29, 1e40, -1e40, f64::MAX, f64::MIN_POSITIVE, 1e-28, 1e-30,
                             5e-324, f64::NAN, f64::INFINITY, f64::NEG_INFINITY, 79228162514264337593543950335.0, 2f64.powi(96), 2f64.powi(95), 4503599627370497.0];
+    // whole floats at the edges of the integer types and of the mantissa
+    for k in [7, 8, 15, 16, 24, 31, 32, 52, 53, 54, 62, 63, 64, 65, 94, 95] {
+        for d in [-1.0f64, 0.0, 1.0] {
+            fs.push(2f64.powi(k) + d);
+            fs.push(-(2f64.powi(k) + d));
+        }
+    }
+    for _ in 0..n {
+        let k = rng.gen_range(0..96);
+        fs.push(((rng.gen::<f64>() * 2f64.powi(k)).floor()) * if rng.gen_bool(0.5) { -1.0 } else { 1.0 });
+    }
     for _ in 0..(n * 4) {
         let e = rng.gen_range(-40..32);
         fs.push((rng.gen::<f64>() - 0.5) * 10f64.powi(e));
